@@ -52,6 +52,13 @@ func (h *hookLog) load(ref ogorek.Ref) (any, error) {
 			return UserObj{Tag: idx}, nil
 		}
 		return nil, nil
+	case 6:
+		// a hook that reports failure the way hand-written loaders do: a (half-built or typed-nil)
+		// object together with the error, on every second call
+		if idx%2 == 1 {
+			return UserObj{Tag: idx}, errHook
+		}
+		return UserObj{Tag: idx}, nil
 	case 5:
 		// the registry hook of the model (Model/Norm.v inv_load): the object is a function of the id only
 		switch p := ref.Pid.(type) {
